@@ -1,34 +1,53 @@
 """Reference model for GFA2 groups (C17).  Works on the TEXT of a document;
 never imports gfapy.
 
-What the model defines (and nothing more -- see DESIGN.md, C17, "not demanded"):
+The GFA2 specification describes O and U groups in two sentences, so several
+readings of an item list are defensible.  The model computes the answer under
+EVERY reading listed here and demands from the implementation only an outcome
+that is acceptable under at least one of them (`combine`); where one reading
+has no answer at all the verdict is "lenient" and only the validity of
+whatever is returned is checked (`check_walk`).
 
-* An E line is an ADJACENCY of two oriented segments: `e+` joins {sid1, sid2},
-  `e-` joins {inv(sid1), inv(sid2)}, in either order.  Which of the two comes
-  first in an edge step is not defined.
-* Captured walk of an O group: the minimal alternating walk segment / edge /
-  segment ... in which the elements of the item list occur in order, with
+Readings of an E line
+  A  adjacency (DESIGN.md C17): `e+` joins {sid1, sid2}, `e-` joins
+     {inv(sid1), inv(sid2)}, in either order;
+  D  direction by field order: `e+` leads from sid1 to sid2, `e-` from
+     inv(sid2) to inv(sid1).  Every D walk is an A walk.
+  Whatever the direction of an edge is, it is one direction: an A walk that
+  crosses an edge both ways (`a+ e1+ b+ e1+ a+`) is a walk under no directed
+  reading, so an error is as acceptable as that walk ("either").
+
+Captured walk of an O group: the minimal alternating walk segment / edge /
+segment ... in which the elements of the item list occur in order, with
   - between two consecutive segments exactly one (edge, direction) supplied --
     none or several fitting is an error ("hard");
-  - between two consecutive edges their shared junction segment supplied --
-    no shared segment is an error ("hard");
+  - between two consecutive edges their shared junction supplied -- no shared
+    segment is an error ("hard");
   - a segment next to an edge being an end of that edge; when it is NOT
-    incident to the edge, the specification does not say what is meant, so the
-    model abstains ("soft" failure -> lenient);
-  - a leading edge supplying its two segments in either order (both accepted);
+    incident to the edge, the specification does not say what is meant, and
+    the model abstains ("soft" failure -> lenient);
+  - a leading edge supplying its two segments in either order (reading A);
   - a nested path inlined, reversed with every element inverted when it is
-    referenced with `-`.  The specification does not say whether the ITEMS of
-    the nested group or its CAPTURED WALK are inlined; the two readings ("T",
-    "C") differ at the seams (e.g. `O o1 e1+` / `O p o1+ b+`), so the model
-    computes both and only demands an answer where they agree.
-* Induced set of a U group: every segment mentioned directly, through an edge
-  (both of its segments), through the captured walk of an O group or through a
-  nested set; plus every edge both of whose segments are inside.  A gap listed
-  in a set is not covered by the specification: with and without its two
-  segments are both accepted.
-* Several O (or U) lines with one identifier: items concatenated in arrival
-  order, tags united, a tag given two different values -> the later line is
-  refused (MergeConflict) and the document is unchanged.
+    referenced with `-`.  Readings of "inlined":
+      T  the ITEMS of the nested group are inlined;
+      C  its CAPTURED WALK is inlined, every element counting as mentioned;
+      H  its captured walk is inlined, but an end segment that the nested
+         group only implied (its first / last item is an edge) stays implied:
+         a neighbouring segment item may name it, as after a plain edge item.
+    They differ at the seams only (`O o1 e1+` / `O p o1+ b+`: T, H -> a+ e1+ b+;
+    C -> error).  Which of several acceptable walks a nested path resolves to
+    (start side of a leading edge) is a further free choice; each choice counts
+    as a reading.
+
+Induced set of a U group: every segment mentioned directly, through an edge
+(both of its segments), through the captured walk of an O group or through a
+nested set; plus every edge both of whose segments are inside.  A gap listed
+in a set is not covered by the specification: with and without its two
+segments are both accepted (and so is an error).
+
+Several O (or U) lines with one identifier: items concatenated in arrival
+order, tags united, a tag given two different values -> the later line is
+refused (MergeConflict) and the document is unchanged.
 """
 import itertools
 
@@ -374,21 +393,17 @@ def walks_C(doc, name, hybrid=False, directed=False):
       parts.append([(it,)])
     else:
       raise Unsupported("item of kind {} in an ordered group".format(k))
-  walks = set()
-  soft = False
-  err_ok = False
+  # Which of its acceptable walks a nested path resolves to is not demanded
+  # (start side of a leading edge), so every choice is a reading of its own:
+  # what is acceptable under any of them is acceptable.
+  verdicts = []
   for choice in itertools.product(*parts):
     if any(part is None for part in choice):
-      err_ok = True
+      verdicts.append(("error", "nested path invalid"))
       continue
     flat = [x for part in choice for x in part]
-    w, s = strict_walks(doc, flat, directed)
-    walks |= w
-    soft = soft or s
-  v = _classify(walks, soft)
-  if err_ok and v[0] == "walks":
-    v = ("either", v[1])
-  return v
+    verdicts.append(_classify(*strict_walks(doc, flat, directed)))
+  return combine(verdicts)
 
 
 def combine(verdicts):
